@@ -1309,6 +1309,10 @@ func (e *absEnv) stdCall(fr *absFrame, name string, args []aval, depth int) (ava
 			f := map[string]func(rune) bool{"unicode.IsSpace": unicode.IsSpace, "unicode.IsDigit": unicode.IsDigit, "unicode.IsLetter": unicode.IsLetter, "unicode.IsUpper": unicode.IsUpper, "unicode.IsLower": unicode.IsLower}[base]
 			return abool(f(rune(v))), true
 		}
+	case "net/textproto.CanonicalMIMEHeaderKey", "net/http.CanonicalHeaderKey":
+		if v, ok := args[0].(astr); ok {
+			return astr(textproto.CanonicalMIMEHeaderKey(string(v))), true
+		}
 	case "strconv.Itoa":
 		if v, ok := args[0].(aint); ok {
 			return astr(fmt.Sprintf("%d", int64(v))), true
